@@ -151,7 +151,7 @@ let eval_case (case : string) (fixedlim : bool) : string =
   let env (f : nat) = let i = int_of_nat f in if i < Array.length envl then Some envl.(i) else None in
   let prog = prog_of_string (String.sub case (kp + 6) (String.length case - kp - 6)) in
   let cfg = { memchr = !memchr_on; fixed3 = !fixed3; fixedlim = fixedlim } in
-  let fuel = nat_of_int 1200 in
+  let fuel = nat_of_int 500 in
   match run_state_log cfg env fuel prog input !lim !det with
   | (RPanic _, _) -> "Panic"
   | (ROutOfFuel, _) -> "Diverged"
